@@ -23,6 +23,9 @@ func Exit() {}
 // Ev records an event without yielding.
 func Ev(site, detail string) {}
 
+// EvP records an event about the object identified by the pointer p without yielding.
+func EvP(site string, p any, detail string) {}
+
 // Poll returns the order in which n ready-candidates are polled (nil: disabled).
 func Poll(n int) []int { return nil }
 
